@@ -1502,6 +1502,8 @@ pub fn mutate(r: &mut StdRng, ts: &[Tok], spec: &SchemeSpec) -> Vec<Tok> {
             let ops: Vec<usize> = (0..out.len())
                 .filter(|&k| matches!(out[k], Tok::Ord { .. } | Tok::Band { .. } | Tok::In | Tok::Bop { .. }))
                 .collect();
+            // a regex literal has no reading as a byte string (other escape rules): leave its operator alone
+            let ops: Vec<usize> = ops.into_iter().filter(|&k| !matches!(out.get(k + 1), Some(Tok::Regex { .. }))).collect();
             if !ops.is_empty() {
                 let k = ops[r.random_range(0..ops.len())];
                 out[k] = match r.random_range(0..4) {
